@@ -633,8 +633,10 @@ def main(res, tier, rng, replay):
         if d.get('nondet_div'):
             # the only excluded inputs: division / modulo by zero (simulator documented as nondeterministic)
             for cyc in hist:
-                if cyc.get('i1', 1) == 0:
-                    cyc['i1'] = 1
+                for k_ in list(cyc):
+                    # i1 of a single block, l<n>_i1 of the lanes of a twin design
+                    if (k_ == 'i1' or k_.endswith('_i1')) and cyc[k_] == 0:
+                        cyc[k_] = 1
         tags = features(d)
         if has_wide_literal(tree):
             tags.add('literal-over-31-bits')
